@@ -1,5 +1,7 @@
 import Ts.Lemmas.Demux
 import Ts.Lemmas.DemuxB
+import Ts.Lemmas.C06b
+import Ts.Model.App
 /-!
 # C06 — every clean packet goes exactly once, unmodified and in order, to the handler of its PID
 
@@ -13,6 +15,11 @@ All theorems hold for EVERY handler semantics `sem : Sem H C`.
   `pushSpec` as the property.
 * `interleaving_independent`: what a PID's handler sees does not depend on interleaved packets of
   other PIDs that do not redefine it.
+* (added) `delivered_exactly_once_in_order`, `flagged_reach_none`, `delivered_to_registered_handler`
+  (+ `_model`, `_push`): the trace-level form, through the logging wrapper `logSem` of ANY `sem`.
+* (added) `interleaving_independent_along`, `…_mod_off`: interleaving independence under
+  hypotheses about the two actual runs, satisfiable by the concrete application's PES slots.
+* (added) "MODEL RESTRICTION" note after `push_refines_spec`.
 -/
 namespace Ts.Props.C06
 open Ts Ts.Demux
@@ -23,6 +30,26 @@ variable {H C : Type}
 theorem push_refines_spec (sem : Sem H C) (tc : Tab H × C) (pks : List Pk) :
     pushModel sem tc pks = pushSpec sem tc pks :=
   pushModel_eq_pushSpec sem tc pks
+
+/-!
+### MODEL RESTRICTION (not a hypothesis of any theorem — it is built into the model's types)
+
+In the model a handler's `consume` RETURNS the changes it queued, and
+`Sem.construct : C → Nat → R (H × C)` returns a handler and a context only.  Consequently
+
+* `construct` cannot queue changes: a `FilterChangeset` filled by the application inside
+  `construct(FilterRequest::ByPid(..))` is NOT representable;
+* `push`/`pushModel`/`pushSpec` take and return `(Tab H × C)` only: every `push` starts and ends
+  with an EMPTY changeset.  A `FilterChangeset` left pending by the application between two calls of
+  `push` (or filled before the first) is NOT representable either.
+
+In the Rust code (`demultiplex.rs:621-674`) such a change would stay pending until a later
+non-flagged packet has been consumed and could survive the end of `push`.  `push_refines_spec` and
+everything below (C06), as well as C07 and C18, say NOTHING about such runs.  This is exact for the
+harness application (its `construct` never touches the changeset and it never holds one across
+pushes) and is a residual risk for the reading "every handler semantics": "every `sem : Sem H C`"
+means every semantics expressible in this interface.
+-/
 
 /-- after lookup-or-construct the slot is occupied, so `get(this_pid).unwrap()` cannot panic -/
 theorem unwrap_never_panics (sem : Sem H C) (t : Tab H) (c : C) (pid : Nat) (t' : Tab H) (c' : C)
@@ -210,5 +237,421 @@ example : ∃ (step : Nat → Pk → Nat × List (Change Nat)) (mk : Nat → Nat
       · split at hch
         · simp at hch; subst hch; simp [Change.pid]
         · simp at hch
+
+/-! ## Trace-level delivery: the logging wrapper `logSem`
+
+`logSem sem : Sem H (C × List (H × Pk))` is `sem` with a log added to the context: every call
+`consume h _ pk` appends `(h, pk)` — the handler state the call was made on and the packet it was
+given — and otherwise behaves as `sem.consume`; `construct` is passed through and leaves the log
+alone (`logSem_consume`, `logSem_construct`).  The log therefore records EVERY `consume` call the
+dispatcher makes, in the order they are made. -/
+
+/-- what the wrapper's `consume` does -/
+theorem logSem_consume (sem : Sem H C) (h : H) (c : C) (l : List (H × Pk)) (pk : Pk) :
+    (logSem sem).consume h (c, l) pk =
+      (sem.consume h c pk >>= fun x => R.ok (x.1, (x.2.1, l ++ [(h, pk)]), x.2.2)) := by
+  show (match sem.consume h c pk with
+    | .panic s => R.panic s
+    | .ok (h', c', chg) => R.ok (h', (c', l ++ [(h, pk)]), chg)) = _
+  cases sem.consume h c pk <;> rfl
+
+/-- what the wrapper's `construct` does -/
+theorem logSem_construct (sem : Sem H C) (c : C) (l : List (H × Pk)) (pid : Nat) :
+    (logSem sem).construct (c, l) pid = (sem.construct c pid >>= fun x => R.ok (x.1, (x.2, l))) := by
+  show (match sem.construct c pid with
+    | .panic s => R.panic s
+    | .ok (h, c') => R.ok (h, (c', l))) = _
+  cases sem.construct c pid <;> rfl
+
+/-- logging is unobservable: forgetting the log, the wrapped run IS the original run (same table,
+same context, a panic in one iff the same panic in the other) -/
+theorem logSem_unobservable (sem : Sem H C) (t : Tab H) (c : C) (l : List (H × Pk)) (pks : List Pk) :
+    (pushSpec (logSem sem) (t, (c, l)) pks >>= fun r => R.ok (r.1, r.2.1)) = pushSpec sem (t, c) pks := by
+  rw [pushSpec_logSem]
+  cases pushSpec sem (t, c) pks <;> rfl
+
+/-- every successful run has a logged counterpart (so the theorems below are about ALL successful
+runs of `sem`); its log is `deliveries sem (t, c) pks` -/
+theorem logged_run_of_run (sem : Sem H C) (t : Tab H) (c : C) (pks : List Pk) (t' : Tab H) (c' : C)
+    (h : pushSpec sem (t, c) pks = .ok (t', c')) :
+    pushSpec (logSem sem) (t, (c, [])) pks = .ok (t', (c', deliveries sem (t, c) pks)) := by
+  rw [pushSpec_logSem, h]; rfl
+
+/-- a successful logged run started with log `l`: same run without logging, log extended by
+`deliveries` -/
+theorem logged_run_inv (sem : Sem H C) (t : Tab H) (c : C) (l : List (H × Pk)) (pks : List Pk)
+    (t' : Tab H) (c' : C) (log : List (H × Pk))
+    (h : pushSpec (logSem sem) (t, (c, l)) pks = .ok (t', (c', log))) :
+    pushSpec sem (t, c) pks = .ok (t', c') ∧ log = l ++ deliveries sem (t, c) pks := by
+  rw [pushSpec_logSem] at h
+  cases hr : pushSpec sem (t, c) pks with
+  | panic s => rw [hr] at h; cases h
+  | ok r =>
+    obtain ⟨t1, c1⟩ := r
+    rw [hr] at h
+    simp only [R.ok_bind] at h
+    cases h
+    exact ⟨rfl, rfl⟩
+
+/-- **MAIN (trace level).**  For EVERY handler semantics `sem`, every initial table and context and
+every packet list: if the logged run succeeds with log `log`, then the packets handed to `consume`
+— all handlers together, in call order — are EXACTLY the non-flagged packets of the input, each
+once, unmodified, in stream order; and the run without logging succeeds with the same table and
+context.  (Hypothesis: the run does not panic; by `logged_run_of_run` every successful run of `sem`
+is covered.  Which handler each packet went to: `delivered_to_registered_handler`.) -/
+theorem delivered_exactly_once_in_order (sem : Sem H C) (t : Tab H) (c : C) (pks : List Pk)
+    (t' : Tab H) (c' : C) (log : List (H × Pk))
+    (h : pushSpec (logSem sem) (t, (c, [])) pks = .ok (t', (c', log))) :
+    log.map (·.2) = pks.filter (fun pk => !pk.flagged) ∧ pushSpec sem (t, c) pks = .ok (t', c') := by
+  obtain ⟨hr, hl⟩ := logged_run_inv sem t c [] pks t' c' log h
+  rw [hl, List.nil_append]
+  exact ⟨deliveries_packets sem pks (t, c) (t', c') hr, hr⟩
+
+/-- packets flagged with a transport error or scrambling reach NO handler: no `consume` call of the
+run was given a flagged packet -/
+theorem flagged_reach_none (sem : Sem H C) (t : Tab H) (c : C) (pks : List Pk)
+    (t' : Tab H) (c' : C) (log : List (H × Pk))
+    (h : pushSpec (logSem sem) (t, (c, [])) pks = .ok (t', (c', log))) :
+    ∀ e ∈ log, e.2.flagged = false := by
+  intro e he
+  have hm : e.2 ∈ log.map (·.2) := List.mem_map_of_mem he
+  rw [(delivered_exactly_once_in_order sem t c pks t' c' log h).1, List.mem_filter] at hm
+  simpa using hm.2
+
+/-- **"… to the handler registered for that PID at that moment and to no other".**  Split the input
+at any non-flagged packet `pk` (`pks = pre ++ pk :: post`).  Then the run over `pre` succeeds, in a
+state `(tk, ck)`; lookup-or-construct for `pk.pid` in that state succeeds with a table `t1` whose
+slot `pk.pid` holds a handler `hd`; and THE log entry for `pk` — entry number
+`#non-flagged packets of pre`, the position of `pk` among the delivered packets — is `(hd, pk)`:
+the one `consume` call for `pk` was made on the handler registered for `pk.pid` when `pk` arrived.
+(If slot `pk.pid` was already occupied in `tk` then `t1 = tk`, `ensure_of_contains`; otherwise `hd`
+is what `construct` returned, `construct_only_when_absent`.)  As the log has exactly one entry per
+non-flagged packet (`delivered_exactly_once_in_order`), no other handler was given `pk`. -/
+theorem delivered_to_registered_handler (sem : Sem H C) (t : Tab H) (c : C) (pre : List Pk) (pk : Pk)
+    (post : List Pk) (t' : Tab H) (c' : C) (log : List (H × Pk)) (hf : pk.flagged = false)
+    (h : pushSpec (logSem sem) (t, (c, [])) (pre ++ pk :: post) = .ok (t', (c', log))) :
+    ∃ tk ck t1 c1 hd,
+      pushSpec sem (t, c) pre = .ok (tk, ck) ∧
+      ensure sem tk ck pk.pid = .ok (t1, c1) ∧ t1.get pk.pid = some hd ∧
+      log[(pre.filter (fun q => !q.flagged)).length]? = some (hd, pk) := by
+  obtain ⟨hr, hl⟩ := logged_run_inv sem t c [] _ t' c' log h
+  obtain ⟨⟨tk, ck⟩, tck', hd, h1, h2, _, h4⟩ := deliveries_split sem pre pk post (t, c) (t', c') hf hr
+  have hlen : (deliveries sem (t, c) pre).length = (pre.filter (fun q => !q.flagged)).length := by
+    rw [← deliveries_packets sem pre (t, c) (tk, ck) h1, List.length_map]
+  unfold registeredFor at h2
+  cases hE : ensure sem tk ck pk.pid with
+  | panic s => rw [hE] at h2; cases h2
+  | ok r =>
+    obtain ⟨t1, c1⟩ := r
+    rw [hE] at h2
+    refine ⟨tk, ck, t1, c1, hd, h1, hE, h2, ?_⟩
+    rw [hl, List.nil_append, h4, ← hlen, List.getElem?_append_right (Nat.le_refl _), Nat.sub_self]
+    rfl
+
+/-- the trace-level theorem for the real double loop (`push_refines_spec`) -/
+theorem delivered_exactly_once_in_order_model (sem : Sem H C) (t : Tab H) (c : C) (pks : List Pk)
+    (t' : Tab H) (c' : C) (log : List (H × Pk))
+    (h : pushModel (logSem sem) (t, (c, [])) pks = .ok (t', (c', log))) :
+    log.map (·.2) = pks.filter (fun pk => !pk.flagged) ∧ pushModel sem (t, c) pks = .ok (t', c') := by
+  rw [push_refines_spec] at h ⊢
+  exact delivered_exactly_once_in_order sem t c pks t' c' log h
+
+theorem flagged_reach_none_model (sem : Sem H C) (t : Tab H) (c : C) (pks : List Pk)
+    (t' : Tab H) (c' : C) (log : List (H × Pk))
+    (h : pushModel (logSem sem) (t, (c, [])) pks = .ok (t', (c', log))) :
+    ∀ e ∈ log, e.2.flagged = false := by
+  rw [push_refines_spec] at h
+  exact flagged_reach_none sem t c pks t' c' log h
+
+theorem delivered_to_registered_handler_model (sem : Sem H C) (t : Tab H) (c : C) (pre : List Pk)
+    (pk : Pk) (post : List Pk) (t' : Tab H) (c' : C) (log : List (H × Pk)) (hf : pk.flagged = false)
+    (h : pushModel (logSem sem) (t, (c, [])) (pre ++ pk :: post) = .ok (t', (c', log))) :
+    ∃ tk ck t1 c1 hd,
+      pushModel sem (t, c) pre = .ok (tk, ck) ∧
+      ensure sem tk ck pk.pid = .ok (t1, c1) ∧ t1.get pk.pid = some hd ∧
+      log[(pre.filter (fun q => !q.flagged)).length]? = some (hd, pk) := by
+  rw [push_refines_spec] at h
+  obtain ⟨tk, ck, t1, c1, hd, h1, h2, h3, h4⟩ :=
+    delivered_to_registered_handler sem t c pre pk post t' c' log hf h
+  exact ⟨tk, ck, t1, c1, hd, by rw [push_refines_spec]; exact h1, h2, h3, h4⟩
+
+/-- … and for `Demultiplex::push` on raw bytes: with `pks` the packets framed out of `buf`
+(characterised byte by byte in `C07.frame_spec`), the `consume` calls of one `push` are given
+exactly the non-flagged framed packets, once each, in buffer order. -/
+theorem delivered_exactly_once_in_order_push (sem : Sem H C) (t : Tab H) (c : C) (buf : Bytes)
+    (base : Nat) (t' : Tab H) (c' : C) (log : List (H × Pk))
+    (h : push (logSem sem) (t, (c, [])) buf base = .ok (t', (c', log))) :
+    ∃ pks, frame buf base = .ok pks ∧
+      log.map (·.2) = pks.filter (fun pk => !pk.flagged) ∧
+      (∀ e ∈ log, e.2.flagged = false) ∧
+      push sem (t, c) buf base = .ok (t', c') := by
+  unfold push at h ⊢
+  rw [frame_eq_pure] at h ⊢
+  simp only [R.ok_bind] at h ⊢
+  obtain ⟨h1, h2⟩ := delivered_exactly_once_in_order_model sem t c _ t' c' log h
+  exact ⟨_, rfl, h1, flagged_reach_none_model sem t c _ t' c' log h, h2⟩
+
+/-! ### non-vacuity of the trace-level theorems (`exSem`, whose handler state counts the packets
+consumed so far) -/
+
+/-- the run of the first example above, logged: PID 5's handler is given the 1st packet in state 0
+and the 4th in state 1; the flagged 2nd and 3rd packets appear nowhere -/
+example : pushSpec (logSem exSem) ([], ([], []))
+      [exPk 5 false false, exPk 5 true false, exPk 6 false true, exPk 5 false false]
+    = .ok ([none, none, none, none, none, some 2, some 0], ([9005, 500, 9006, 501],
+        [(0, exPk 5 false false), (1, exPk 5 false false)])) := rfl
+
+/-- a handler that removes itself and inserts another (PID 1 → PID 2 in state 50), then a packet for
+the inserted handler: the log shows PID 2's packet went to the handler registered by that change -/
+example : pushModel (logSem exSem) ([], ([], [])) [exPk 1 false false, exPk 2 false false]
+    = .ok ([none, none, some 51], ([9001, 100, 250], [(0, exPk 1 false false), (50, exPk 2 false false)])) := rfl
+
+/-- `delivered_exactly_once_in_order` applied to this run (whose hypothesis holds by the first
+example): the log's packets are the two non-flagged ones -/
+example : ∀ t' c' log, pushSpec (logSem exSem) ([], ([], []))
+      [exPk 5 false false, exPk 5 true false, exPk 6 false true, exPk 5 false false] = .ok (t', (c', log))
+    → log.map (·.2) = [exPk 5 false false, exPk 5 false false] :=
+  fun t' c' log h => (delivered_exactly_once_in_order exSem [] [] _ t' c' log h).1
+
+/-! ## Interleaving independence under run-relative hypotheses
+
+`interleaving_independent` above asks that `consume` be TOTAL and context-independent for every
+handler state, context and packet (`hS`) and that NO handler state whatsoever, on any packet of
+another PID, queue a change for `p` (`hN`).  Both are false for the concrete application `App.sem`
+(a PAT handler in a non-invariant state panics; what a PAT/PMT handler queues depends on the
+context's `bypassCrc` and `nextTag`; a recorder with a suitable script queues an insert for any
+PID).  The versions below only speak about the two runs that actually happen. -/
+
+/-- **Interleaving independence, run-relative.**  Two runs of the per-packet fold, from possibly
+different tables and contexts, over possibly different packet lists `xs`, `ys`.  Hypotheses:
+* `hg`: slot `p` holds the same content in both initial tables;
+* `hown`: the packets of PID `p` are the same in both lists (same `Pk` values — including the
+  stream offset `off` — in the same order; for offsets see `…_mod_off`);
+* `hK1`, `hK2` (`OthersKeep`, a predicate on the ACTUAL run, defined by recursion along it): in each
+  run, no step on a packet of another PID changes slot `p`;
+* `hM` (`OwnMeets`, likewise on the first run): whenever a packet of PID `p` arrives, slot `p` is
+  occupied (so `construct` is not needed), by a handler satisfying `P` if the packet is not flagged;
+* `hP`: for handler states satisfying `P` (chosen by the user: e.g. exactly the states met), the
+  new handler state and the queued changes returned by `consume` on a non-flagged packet of PID `p`
+  do not depend on the context (`CtxIrrelevant`; the returned context may differ);
+* `hr1`, `hr2`: both runs succeed.
+Conclusion: slot `p` holds the same content after both runs.
+
+For the concrete application: a PES slot satisfies `hP` with `P := (isPesHandler · = true)`
+(`pes_ctxIrrelevant`; see the example below, and `C02Trace.projection_independent_of_interleaving`
+for the observed callbacks).  Recorder, PAT and PMT slots do NOT satisfy `hP` as stated for all
+contexts (script / `bypassCrc` / `nextTag` are read from the context), so nothing is claimed for
+them.  The conclusion is about the handler STATE in slot `p`, not about the callbacks received by
+the context. -/
+theorem interleaving_independent_along (sem : Sem H C) (p : Nat) (P : H → Prop)
+    (hP : ∀ h pk, P h → pk.pid = p → pk.flagged = false → CtxIrrelevant sem h pk)
+    (xs ys : List Pk) (t1 t2 t1' t2' : Tab H) (c1 c2 c1' c2' : C)
+    (hg : t1.get p = t2.get p)
+    (hown : xs.filter (fun pk => pk.pid == p) = ys.filter (fun pk => pk.pid == p))
+    (hK1 : OthersKeep sem p (t1, c1) xs) (hK2 : OthersKeep sem p (t2, c2) ys)
+    (hM : OwnMeets sem p P (t1, c1) xs)
+    (hr1 : pushSpec sem (t1, c1) xs = .ok (t1', c1'))
+    (hr2 : pushSpec sem (t2, c2) ys = .ok (t2', c2')) :
+    t1'.get p = t2'.get p :=
+  get_eq_along sem p P id (fun a b e => by cases e; rfl)
+    (fun h pk pk' hh hp hf e => by cases e; exact hP h pk hh hp hf)
+    xs ys (t1, c1) (t2, c2) (t1', c1') (t2', c2') hg (by simpa using hown) hK1 hK2 hM hr1 hr2
+
+/-- the same for the real double loop -/
+theorem interleaving_independent_along_model (sem : Sem H C) (p : Nat) (P : H → Prop)
+    (hP : ∀ h pk, P h → pk.pid = p → pk.flagged = false → CtxIrrelevant sem h pk)
+    (xs ys : List Pk) (t1 t2 t1' t2' : Tab H) (c1 c2 c1' c2' : C)
+    (hg : t1.get p = t2.get p)
+    (hown : xs.filter (fun pk => pk.pid == p) = ys.filter (fun pk => pk.pid == p))
+    (hK1 : OthersKeep sem p (t1, c1) xs) (hK2 : OthersKeep sem p (t2, c2) ys)
+    (hM : OwnMeets sem p P (t1, c1) xs)
+    (hr1 : pushModel sem (t1, c1) xs = .ok (t1', c1'))
+    (hr2 : pushModel sem (t2, c2) ys = .ok (t2', c2')) :
+    t1'.get p = t2'.get p := by
+  rw [push_refines_spec] at hr1 hr2
+  exact interleaving_independent_along sem p P hP xs ys t1 t2 t1' t2' c1 c2 c1' c2' hg hown hK1 hK2 hM hr1 hr2
+
+/-- **… modulo stream offsets.**  In one stream two different interleavings put the packets of PID
+`p` at different offsets, so `hown` above cannot hold.  Here the own packets are compared with the
+offset erased (`Pk.noOff`: bytes, PID and flags), and `hP` asks in addition that `consume` not look
+at the offset for the handler state and the changes (`ConsumeAgrees h pk pk'` for `pk`, `pk'` equal
+up to `off`).  The application's PES slots satisfy this (`pes_consumeAgrees`: the filter state
+depends on the packet bytes only). -/
+theorem interleaving_independent_along_mod_off (sem : Sem H C) (p : Nat) (P : H → Prop)
+    (hP : ∀ h pk pk', P h → pk.pid = p → pk.flagged = false → pk.noOff = pk'.noOff →
+      ConsumeAgrees sem h pk pk')
+    (xs ys : List Pk) (t1 t2 t1' t2' : Tab H) (c1 c2 c1' c2' : C)
+    (hg : t1.get p = t2.get p)
+    (hown : (xs.filter (fun pk => pk.pid == p)).map Pk.noOff
+          = (ys.filter (fun pk => pk.pid == p)).map Pk.noOff)
+    (hK1 : OthersKeep sem p (t1, c1) xs) (hK2 : OthersKeep sem p (t2, c2) ys)
+    (hM : OwnMeets sem p P (t1, c1) xs)
+    (hr1 : pushSpec sem (t1, c1) xs = .ok (t1', c1'))
+    (hr2 : pushSpec sem (t2, c2) ys = .ok (t2', c2')) :
+    t1'.get p = t2'.get p :=
+  get_eq_along sem p P Pk.noOff Pk.noOff_flagged hP
+    xs ys (t1, c1) (t2, c2) (t1', c1') (t2', c2') hg hown hK1 hK2 hM hr1 hr2
+
+/-- what the run-relative predicates say, one step at a time -/
+theorem othersKeep_spec (sem : Sem H C) (p : Nat) (tc : Tab H × C) (pk : Pk) (pks : List Pk) :
+    OthersKeep sem p tc [] ∧
+    (OthersKeep sem p tc (pk :: pks) ↔
+      ∀ tc', specStep sem tc pk = .ok tc' →
+        (pk.pid ≠ p → tc'.1.get p = tc.1.get p) ∧ OthersKeep sem p tc' pks) := by
+  refine ⟨othersKeep_nil sem p tc, ?_⟩
+  constructor
+  · intro h tc' e; exact othersKeep_cons sem p tc tc' pk pks e h
+  · intro h
+    rw [othersKeep_cons_iff]
+    cases hs : specStep sem tc pk with
+    | panic s => trivial
+    | ok r => exact h r hs
+
+theorem ownMeets_spec (sem : Sem H C) (p : Nat) (P : H → Prop) (tc : Tab H × C) (pk : Pk)
+    (pks : List Pk) :
+    OwnMeets sem p P tc [] ∧
+    (OwnMeets sem p P tc (pk :: pks) ↔
+      (pk.pid = p → ∃ h, tc.1.get p = some h ∧ (pk.flagged = false → P h)) ∧
+      ∀ tc', specStep sem tc pk = .ok tc' → OwnMeets sem p P tc' pks) := by
+  refine ⟨ownMeets_nil sem p P tc, ?_⟩
+  constructor
+  · intro h
+    exact ⟨((ownMeets_cons_iff sem p P tc pk pks).1 h).1,
+      fun tc' e => (ownMeets_cons sem p P tc tc' pk pks e h).2⟩
+  · intro h
+    rw [ownMeets_cons_iff]
+    refine ⟨h.1, ?_⟩
+    cases hs : specStep sem tc pk with
+    | panic s => trivial
+    | ok r => exact h.2 r hs
+
+/-! ### non-vacuity with the CONCRETE application `App.sem`: two PES streams interleaved -/
+
+section app_example
+open Ts.App
+
+/-- a transport packet: payload only, `pusi`, PID, continuity counter, 184 payload bytes -/
+private def tp (pusi : Bool) (pid cc : Nat) (payload : Bytes) : Bytes :=
+  [0x47, UInt8.ofNat ((if pusi then 0x40 else 0) + pid / 256), UInt8.ofNat (pid % 256),
+   UInt8.ofNat (0x10 + cc)] ++ payload
+
+/-- PES header `00 00 01 e0 00 00` + optional header `80 00 00` (no PTS) -/
+private def pesHead : Bytes := [0, 0, 1, 0xe0, 0, 0, 0x80, 0, 0]
+
+private def a0 : Bytes := tp true 0x21 0 (pesHead ++ List.replicate 175 0x11)
+private def a1 : Bytes := tp false 0x21 1 (List.replicate 184 0x12)
+private def a2 : Bytes := tp true 0x21 2 (pesHead ++ List.replicate 175 0x13)
+private def b0 : Bytes := tp true 0x22 7 (pesHead ++ List.replicate 175 0x21)
+private def b1 : Bytes := tp false 0x22 8 (List.replicate 184 0x22)
+private def r0 : Bytes := tp false 0x30 0 (List.replicate 184 0x33)
+
+/-- run 1: PES filters tagged 2 and 3 on PIDs 0x21 and 0x22 -/
+private def tab1 : Tab Handler := List.replicate 0x21 none ++ [some (.pes 2 {}), some (.pes 3 {})]
+private def ctx1 : Ctx := { cfg := {}, nextTag := 4 }
+/-- run 2: only the PES filter tagged 2 on PID 0x21; another configuration, tag counter and trace -/
+private def tab2 : Tab Handler := List.replicate 0x21 none ++ [some (.pes 2 {})]
+private def ctx2 : Ctx := { cfg := { bypassCrc := true }, nextTag := 9, trace := [.scriptRem 5] }
+
+/-- `A B A B A` -/
+private def xs1 : List Pk :=
+  [⟨a0, 0, 0x21, false, false⟩, ⟨b0, 188, 0x22, false, false⟩, ⟨a1, 376, 0x21, false, false⟩,
+   ⟨b1, 564, 0x22, false, false⟩, ⟨a2, 752, 0x21, false, false⟩]
+/-- same positions for PID 0x21, the other slots taken by the unannounced PID 0x30 (for which a
+recorder is constructed on the fly), the second of them flagged -/
+private def ys1 : List Pk :=
+  [⟨a0, 0, 0x21, false, false⟩, ⟨r0, 188, 0x30, false, false⟩, ⟨a1, 376, 0x21, false, false⟩,
+   ⟨r0, 564, 0x30, true, false⟩, ⟨a2, 752, 0x21, false, false⟩]
+/-- another interleaving of the stream of `xs1`: `B B A A A` (PID 0x21 at other offsets) -/
+private def ys2 : List Pk :=
+  [⟨b0, 0, 0x22, false, false⟩, ⟨b1, 188, 0x22, false, false⟩, ⟨a0, 376, 0x21, false, false⟩,
+   ⟨a1, 564, 0x21, false, false⟩, ⟨a2, 752, 0x21, false, false⟩]
+
+private theorem pesP (h : Handler) (hh : isPesHandler h = true) : ∃ tag f, h = .pes tag f := by
+  cases h with
+  | pes tag f => exact ⟨tag, f, rfl⟩
+  | pat s r => cases hh
+  | pmt a b s r => cases hh
+  | recorder t => cases hh
+
+/-- the hypotheses of `interleaving_independent_along` are satisfiable by `App.sem`: PID 0x21,
+`P := PES handler`, runs `xs1` from `(tab1, ctx1)` and `ys1` from `(tab2, ctx2)`.  All run-relative
+hypotheses are established by evaluation; the conclusion is then an instance of the theorem (and is
+also shown evaluated: the filter has seen counter 2 and is inside a PES packet). -/
+example : ∃ t1' c1' t2' c2',
+    pushSpec App.sem (tab1, ctx1) xs1 = .ok (t1', c1') ∧
+    pushSpec App.sem (tab2, ctx2) ys1 = .ok (t2', c2') ∧
+    OthersKeep App.sem 0x21 (tab1, ctx1) xs1 ∧ OthersKeep App.sem 0x21 (tab2, ctx2) ys1 ∧
+    OwnMeets App.sem 0x21 (fun h => isPesHandler h = true) (tab1, ctx1) xs1 ∧
+    t1'.get 0x21 = t2'.get 0x21 ∧ t1'.get 0x21 = some (.pes 2 ⟨some 2, .started⟩) := by
+  have k1 : othersKeepB App.sem slotEqb 0x21 (tab1, ctx1) xs1 = true := by decide +kernel
+  have k2 : othersKeepB App.sem slotEqb 0x21 (tab2, ctx2) ys1 = true := by decide +kernel
+  have m : ownMeetsB App.sem isPesHandler 0x21 (tab1, ctx1) xs1 = true := by decide +kernel
+  have hown : xs1.filter (fun pk => pk.pid == 0x21) = ys1.filter (fun pk => pk.pid == 0x21) := by
+    decide +kernel
+  have hg : slotEqb (tab1.get 0x21) (tab2.get 0x21) = true := by decide +kernel
+  have hv : (match pushSpec App.sem (tab1, ctx1) xs1 with
+      | .ok (t, _) => slotEqb (t.get 0x21) (some (.pes 2 ⟨some 2, .started⟩))
+      | .panic _ => false) = true := by decide +kernel
+  have ok2 : (pushSpec App.sem (tab2, ctx2) ys1).isOk = true := by decide +kernel
+  have hK1 := othersKeep_of_check App.sem slotEqb slotEqb_sound 0x21 xs1 (tab1, ctx1) k1
+  have hK2 := othersKeep_of_check App.sem slotEqb slotEqb_sound 0x21 ys1 (tab2, ctx2) k2
+  have hM := ownMeets_of_check App.sem isPesHandler (fun h => isPesHandler h = true) (fun _ h => h)
+    0x21 xs1 (tab1, ctx1) m
+  cases hr1 : pushSpec App.sem (tab1, ctx1) xs1 with
+  | panic s => rw [hr1] at hv; cases hv
+  | ok r1 =>
+    cases hr2 : pushSpec App.sem (tab2, ctx2) ys1 with
+    | panic s => rw [hr2] at ok2; cases ok2
+    | ok r2 =>
+      obtain ⟨t1', c1'⟩ := r1
+      obtain ⟨t2', c2'⟩ := r2
+      rw [hr1] at hv
+      refine ⟨t1', c1', t2', c2', rfl, rfl, hK1, hK2, hM, ?_, slotEqb_sound _ _ hv⟩
+      refine interleaving_independent_along App.sem 0x21 (fun h => isPesHandler h = true) ?_
+        xs1 ys1 tab1 tab2 t1' t2' ctx1 ctx2 c1' c2' (slotEqb_sound _ _ hg) hown hK1 hK2 hM hr1 hr2
+      intro h pk hh _ _
+      obtain ⟨tag, f, e⟩ := pesP h hh
+      subst e
+      exact pes_ctxIrrelevant tag f pk
+
+/-- … and of `interleaving_independent_along_mod_off`: `xs1` (`A B A B A`) against `ys2`
+(`B B A A A`), both from `(tab1, ctx1)`; the PID-0x21 packets sit at different offsets. -/
+example : ∃ t1' c1' t2' c2',
+    pushSpec App.sem (tab1, ctx1) xs1 = .ok (t1', c1') ∧
+    pushSpec App.sem (tab1, ctx1) ys2 = .ok (t2', c2') ∧
+    xs1.filter (fun pk => pk.pid == 0x21) ≠ ys2.filter (fun pk => pk.pid == 0x21) ∧
+    t1'.get 0x21 = t2'.get 0x21 := by
+  have k1 : othersKeepB App.sem slotEqb 0x21 (tab1, ctx1) xs1 = true := by decide +kernel
+  have k2 : othersKeepB App.sem slotEqb 0x21 (tab1, ctx1) ys2 = true := by decide +kernel
+  have m : ownMeetsB App.sem isPesHandler 0x21 (tab1, ctx1) xs1 = true := by decide +kernel
+  have hown : (xs1.filter (fun pk => pk.pid == 0x21)).map Pk.noOff
+      = (ys2.filter (fun pk => pk.pid == 0x21)).map Pk.noOff := by decide +kernel
+  have hne : xs1.filter (fun pk => pk.pid == 0x21) ≠ ys2.filter (fun pk => pk.pid == 0x21) := by
+    decide +kernel
+  have ok1 : (pushSpec App.sem (tab1, ctx1) xs1).isOk = true := by decide +kernel
+  have ok2 : (pushSpec App.sem (tab1, ctx1) ys2).isOk = true := by decide +kernel
+  have hK1 := othersKeep_of_check App.sem slotEqb slotEqb_sound 0x21 xs1 (tab1, ctx1) k1
+  have hK2 := othersKeep_of_check App.sem slotEqb slotEqb_sound 0x21 ys2 (tab1, ctx1) k2
+  have hM := ownMeets_of_check App.sem isPesHandler (fun h => isPesHandler h = true) (fun _ h => h)
+    0x21 xs1 (tab1, ctx1) m
+  cases hr1 : pushSpec App.sem (tab1, ctx1) xs1 with
+  | panic s => rw [hr1] at ok1; cases ok1
+  | ok r1 =>
+    cases hr2 : pushSpec App.sem (tab1, ctx1) ys2 with
+    | panic s => rw [hr2] at ok2; cases ok2
+    | ok r2 =>
+      obtain ⟨t1', c1'⟩ := r1
+      obtain ⟨t2', c2'⟩ := r2
+      refine ⟨t1', c1', t2', c2', rfl, rfl, hne, ?_⟩
+      refine interleaving_independent_along_mod_off App.sem 0x21 (fun h => isPesHandler h = true) ?_
+        xs1 ys2 tab1 tab1 t1' t2' ctx1 ctx1 c1' c2' rfl hown hK1 hK2 hM hr1 hr2
+      intro h pk pk' hh _ _ e
+      obtain ⟨tag, f, e'⟩ := pesP h hh
+      subst e'
+      refine pes_consumeAgrees tag f pk pk' ?_
+      unfold Pk.noOff at e
+      injection e
+
+end app_example
 
 end Ts.Props.C06
